@@ -1,4 +1,5 @@
-import DFV.Lemmas.MeshInv
+import DFV.Lemmas.C13Forms
+import DFV.Model.C13
 /-!
 # C13 — geometric invariants and in-place == copy after any transformation sequence
 
@@ -432,6 +433,219 @@ theorem zero_factor_rejected (r : Region) (f : Factor) (ref : Option (List Rat))
   right; right
   refine ⟨a, ha, ?_⟩
   unfold scaleHi; rw [hz]; ring
+
+
+/-! ## mesh level: the step refined, in-place == copying, rejections -/
+open DFV.C14
+
+/-- **Refinement of the mesh step.**  `stepM` (written op by op, as mesh.py is) equals the uniform
+description `stepMU`: apply the region step to the region and the SAME step — reference point fixed
+to the mesh's (`subOp`: the given point, else the region centre) — to every subregion in order;
+counts `opN` (swapped for odd `k`) and `bc` `opBc` (axis letters swapped for odd `k`); then either
+assign (in place: receiver = result) or go through the constructor with the subregion setter
+(copying: receiver untouched).  All mesh-level theorems below are proved from this form. -/
+theorem stepM_refines (m : Mesh) (op : Op) : stepM m op = stepMU m op := stepM_eq_stepMU m op
+
+/-- every accepted mesh step: receiver and result keep the mesh invariant, the counts are `opN`
+(so translation and scaling keep `n`), and the new region is what the region step returns -/
+theorem stepM_region_n (m : Mesh) (hm : m.Inv) (op : Op) (recv ret : Mesh) (h : stepM m op = .ok (recv, ret)) :
+    recv.Inv ∧ ret.Inv ∧ ret.n = opN m op ∧ ∃ x, stepR m.region op = .ok (x, ret.region) :=
+  stepM_keeps m hm op recv ret h
+
+/-- "scaling keeps n" (either form, any factors, any reference point) -/
+theorem scale_keeps_n (m : Mesh) (hm : m.Inv) (f : Factor) (ref : Option (List Rat)) (b : Bool) (recv ret : Mesh)
+    (h : stepM m (.scale f ref b) = .ok (recv, ret)) : ret.n = m.n :=
+  (stepM_keeps m hm _ recv ret h).2.2.1
+
+/-- **"cell·n equals the region edges" after every history**: for every mesh reached by any
+finite history, on every axis the count is positive and `n · cell = pmax − pmin` exactly -/
+theorem cells_tile_after_history (m : Mesh) (hm : m.Inv) (ops : List Op) (a : Nat) (ha : a < (runM m ops).ndim) :
+    0 < (runM m ops).nAt a ∧
+    ((runM m ops).nAt a : Rat) * (runM m ops).cellAt a = (runM m ops).region.hi a - (runM m ops).region.lo a :=
+  ⟨(reachable_inv_mesh m hm ops).2.2 a ha, n_mul_cell _ (reachable_inv_mesh m hm ops) a ha⟩
+
+/-- **In-place == copying at mesh level.**  For a mesh satisfying the mesh invariant and `SubInv`:
+(1) if the in-place form accepts, it returns the receiver itself (`T1 = T2`), and the copying form
+returns exactly that state with `bc` lower-cased by the constructor when that `bc` is valid — and
+is rejected when it is not; (2) if the copying form accepts, the receiver is untouched, the
+in-place form accepts too and the returned mesh is the in-place state (bc lower-cased); (3) hence
+a step rejected in place is rejected by the copying form as well.  The constructor's tolerant
+re-validation of the subregions never rejects here, because the images fit exactly
+(`DFV.C14.stepM_subInv`, `set_accepts_exact`). -/
+theorem inplace_eq_copy_mesh (m : Mesh) (hm : m.Inv) (hs : SubInv m) (op : Op) :
+    (∀ T1 T2, stepM m (op.withInplace true) = .ok (T1, T2) →
+        T1 = T2 ∧ stepM m (op.withInplace false) =
+          if Mesh.bcOk T2.region.dims T2.bc.toLower then .ok (m, { T2 with bc := T2.bc.toLower }) else .error .value) ∧
+    (∀ recv ret, stepM m (op.withInplace false) = .ok (recv, ret) →
+        recv = m ∧ ∃ T, stepM m (op.withInplace true) = .ok (T, T) ∧ ret = { T with bc := T.bc.toLower }) ∧
+    ((∃ e, stepM m (op.withInplace true) = .error e) → ∃ e, stepM m (op.withInplace false) = .error e) := by
+  refine ⟨fun T1 T2 h => stepM_inplace_to_copy m hm hs op T1 T2 h,
+          fun recv ret h => stepM_copy_to_inplace m hm hs op recv ret h, ?_⟩
+  rintro ⟨e, he⟩
+  cases hF : stepM m (op.withInplace false) with
+  | error e' => exact ⟨e', rfl⟩
+  | ok p =>
+    obtain ⟨recv, ret⟩ := p
+    obtain ⟨_, T, hT, _⟩ := stepM_copy_to_inplace m hm hs op recv ret hF
+    rw [he] at hT; cases hT
+
+/-- Mesh level master lemma for the non-periodic boundary conditions (`""`, `neumann`,
+`dirichlet`): for ANY step either both forms accept and end in the same state `T` (satisfying the
+mesh invariant and `SubInv`, same `bc`; in-place returns the receiver, copying leaves it
+untouched), or both forms reject — "rejected in both forms on exactly the same inputs". -/
+theorem step_forms_mesh (m : Mesh) (hm : m.Inv) (hs : SubInv m) (hbc : PlainBc m.bc) (op : Op) :
+    (∃ T : Mesh, T.Inv ∧ SubInv T ∧ PlainBc T.bc ∧ stepM m (op.withInplace true) = .ok (T, T) ∧
+        stepM m (op.withInplace false) = .ok (m, T)) ∨
+    ((∃ e, stepM m (op.withInplace true) = .error e) ∧ (∃ e, stepM m (op.withInplace false) = .error e)) :=
+  stepM_forms_plain m hm hs hbc op
+
+/-- Two mesh histories that differ only in the in-place flags of their steps end with equal meshes
+(region, counts, bc, subregions). -/
+theorem history_forms_agree_mesh (m : Mesh) (hm : m.Inv) (hs : SubInv m) (hbc : PlainBc m.bc)
+    (ops : List Op) (flags : List Bool) (hl : flags.length = ops.length) :
+    runM m (List.zipWith Op.withInplace ops flags) = runM m ops :=
+  runM_forms_agree m hm hs hbc ops flags hl
+
+/-! ## field level: histories, in-place == copying -/
+
+/-- The shape invariant — array of shape `(*n, nvdim)` (an `n`-shaped array of cell values), Boolean
+validity of shape `n`, mesh invariant — holds after ANY finite history of field transformations. -/
+theorem reachable_inv_field (f : Fld) (hf : FldInv f) (ops : List Op) : FldInv (runF f ops) := by
+  induction ops generalizing f with
+  | nil => exact hf
+  | cons op ops ih =>
+    simp only [runF]
+    cases h : stepF f op with
+    | error e => exact ih f hf
+    | ok p =>
+      obtain ⟨recv, ret⟩ := p
+      exact ih ret (stepF_inv f hf op recv ret h).2
+
+/-- the field rotation: both forms are accepted on exactly the same inputs and return the same
+field; they differ only in the receiver (the result itself in place, untouched when copying) —
+no hypothesis on the field -/
+theorem rotate90F_forms (f : Fld) (a1 a2 : String) (k : Int) (ref : Option (List Rat)) (b b' : Bool) (x g : Fld)
+    (h : rotate90F f a1 a2 k ref b = .ok (x, g)) :
+    rotate90F f a1 a2 k ref b' = .ok (if b' then g else f, g) ∧ x = if b then g else f :=
+  rotate90F_flag f a1 a2 k ref b b' x g h
+
+/-- Field level master lemma: for a field satisfying `FInv` and ANY step, either both forms accept
+and end in the same state `T` (again satisfying `FInv`; the in-place form returns the receiver,
+the copying form leaves it untouched), or both forms reject. -/
+theorem stepF_forms (f : Fld) (hf : FInv f) (op : Op) :
+    (∃ T : Fld, FInv T ∧ stepF f (op.withInplace true) = .ok (T, T) ∧ stepF f (op.withInplace false) = .ok (f, T)) ∨
+    ((∃ e, stepF f (op.withInplace true) = .error e) ∧ (∃ e, stepF f (op.withInplace false) = .error e)) := by
+  obtain ⟨hfi, hs, hbc⟩ := hf
+  have hmesh : ∀ (o : Op) (x : Mesh) (T : Mesh), stepM f.mesh o = .ok (x, T) → SubInv T ∧ PlainBc T.bc := by
+    intro o x T h
+    refine ⟨(stepM_subInv' f.mesh hfi.1 hs o x T h).2.1, ?_⟩
+    rw [(stepM_plainBc f.mesh o x T hbc h).1]; exact hbc
+  cases op with
+  | translate v i =>
+    simp only [Op.withInplace, stepF]
+    rcases stepM_forms_plain f.mesh hfi.1 hs hbc (.translate v i) with ⟨T, h1, h2, h3, h4, h5⟩ | ⟨⟨e1, h4⟩, ⟨e2, h5⟩⟩
+    · left
+      simp only [Op.withInplace] at h4 h5
+      refine ⟨{ f with mesh := T }, ⟨?_, h2, h3⟩, by rw [h4]; simp, by rw [h5]; simp⟩
+      exact (stepF_inv f hfi (.translate v true) _ _ (by simp only [stepF]; rw [h4])).2
+    · right
+      simp only [Op.withInplace] at h4 h5
+      exact ⟨⟨e1, by rw [h4]⟩, ⟨e2, by rw [h5]⟩⟩
+  | scale s ref i =>
+    simp only [Op.withInplace, stepF]
+    rcases stepM_forms_plain f.mesh hfi.1 hs hbc (.scale s ref i) with ⟨T, h1, h2, h3, h4, h5⟩ | ⟨⟨e1, h4⟩, ⟨e2, h5⟩⟩
+    · left
+      simp only [Op.withInplace] at h4 h5
+      refine ⟨{ f with mesh := T }, ⟨?_, h2, h3⟩, by rw [h4]; simp, by rw [h5]; simp⟩
+      exact (stepF_inv f hfi (.scale s ref true) _ _ (by simp only [stepF]; rw [h4])).2
+    · right
+      simp only [Op.withInplace] at h4 h5
+      exact ⟨⟨e1, by rw [h4]⟩, ⟨e2, by rw [h5]⟩⟩
+  | rotate90 a1 a2 k ref i =>
+    simp only [Op.withInplace, stepF]
+    cases hT : rotate90F f a1 a2 k ref true with
+    | ok p =>
+      obtain ⟨x, g⟩ := p
+      left
+      obtain ⟨g1, _⟩ := rotate90F_flag f a1 a2 k ref true true x g hT
+      obtain ⟨g2, _⟩ := rotate90F_flag f a1 a2 k ref true false x g hT
+      simp only [if_true] at g1
+      simp only [Bool.false_eq_true, if_false] at g2
+      refine ⟨g, ⟨(stepF_inv f hfi (.rotate90 a1 a2 k ref true) _ _ (by simp only [stepF]; exact g1)).2, ?_⟩, hT.symm.trans g1, g2⟩
+      -- the mesh of the result is the copying-form mesh step
+      have hg := hT
+      unfold rotate90F at hg
+      split at hg
+      · cases hg
+      · cases hg
+      · cases hg
+      · rename_i m' i1 i2 hm' _ _
+        have hgm : g.mesh = m' := by
+          split at hg
+          · split at hg
+            · injection hg with hg; injection hg with _ hb; rw [← hb]
+            · cases hg
+          · injection hg with hg; injection hg with _ hb; rw [← hb]
+        rw [hgm]; exact hmesh _ _ _ hm'
+    | error e =>
+      right
+      refine ⟨⟨e, rfl⟩, ?_⟩
+      cases hF : rotate90F f a1 a2 k ref false with
+      | error e' => exact ⟨e', rfl⟩
+      | ok p =>
+        obtain ⟨x, g⟩ := p
+        obtain ⟨g1, _⟩ := rotate90F_flag f a1 a2 k ref false true x g hF
+        rw [hT] at g1; cases g1
+
+/-- Two field histories that differ only in the in-place flags of their steps end with equal fields
+(mesh, values, validity, labels). -/
+theorem history_forms_agree_field (f : Fld) (hf : FInv f) (ops : List Op) (flags : List Bool)
+    (hl : flags.length = ops.length) :
+    runF f (List.zipWith Op.withInplace ops flags) = runF f ops := by
+  induction ops generalizing f flags with
+  | nil => cases flags <;> simp [runF]
+  | cons op ops ih =>
+    cases flags with
+    | nil => simp at hl
+    | cons b bs =>
+      simp only [List.zipWith_cons_cons, runF]
+      have hl' : bs.length = ops.length := by simpa using hl
+      rcases stepF_forms f hf op with ⟨T, hT, h4, h5⟩ | ⟨⟨e1, h4⟩, ⟨e2, h5⟩⟩
+      · have k1 : ∃ x, stepF f (op.withInplace b) = .ok (x, T) := by
+          cases b
+          · exact ⟨_, h5⟩
+          · exact ⟨_, h4⟩
+        have k2 : ∃ y, stepF f op = .ok (y, T) := by
+          cases hb : op.inplace
+          · have : op = op.withInplace false := by rw [← hb, withInplace_self]
+            rw [this]; exact ⟨_, h5⟩
+          · have : op = op.withInplace true := by rw [← hb, withInplace_self]
+            rw [this]; exact ⟨_, h4⟩
+        obtain ⟨x, k1⟩ := k1
+        obtain ⟨y, k2⟩ := k2
+        rw [k1, k2]; exact ih T hT bs hl'
+      · have k1 : ∃ e, stepF f (op.withInplace b) = .error e := by
+          cases b
+          · exact ⟨_, h5⟩
+          · exact ⟨_, h4⟩
+        have k2 : ∃ e, stepF f op = .error e := by
+          cases hb : op.inplace
+          · have : op = op.withInplace false := by rw [← hb, withInplace_self]
+            rw [this]; exact ⟨_, h5⟩
+          · have : op = op.withInplace true := by rw [← hb, withInplace_self]
+            rw [this]; exact ⟨_, h4⟩
+        obtain ⟨x, k1⟩ := k1
+        obtain ⟨y, k2⟩ := k2
+        rw [k1, k2]; exact ih f hf bs hl'
+
+/-- non-vacuity of the mesh- and field-level theorems: `exP` (3-d, anisotropic, two touching
+subregions, default bc) satisfies mesh invariant, `SubInv` and `PlainBc`; the field `exF` on it
+satisfies `FInv`; the history `exOps` (negative-factor in-place scale about a far point, copying odd
+quarter turn, in-place translation) is accepted step by step on both and permutes the counts. -/
+example : exP.Inv ∧ SubInv exP ∧ PlainBc exP.bc := ⟨exP_inv, exP_subInv, Or.inl rfl⟩
+example : FInv exF := ⟨exF_inv, exP_subInv, Or.inl rfl⟩
+example : (runM exP exOps).n = [6, 4, 1] := by decide +kernel
+example : (runF exF exOps).mesh.n = [6, 4, 1] ∧ (runF exF exOps).data.shape = [6, 4, 1] := by decide +kernel
 
 /-- non-vacuity: a concrete 3-d region satisfies the invariant, and a history mixing a
 negative-factor in-place scale about a far reference point, an odd quarter turn and a
